@@ -517,6 +517,8 @@ Section Wire.
         | None => if nillable then Ok tt else VFault
         | Some s =>
             if negb (ext_leb (Fin (len s)) (fa_max_str_len f)) then VFault
+            else if negb (match fa_pattern f with Some (_, r) => re_match r s | None => true end) then VFault
+                                                             (* Uuid is a Unicode with a pattern: validate_string *)
             else match ord k s with
                  | Ok key => let v := SOpq k key s in
                              if range_ok f v && values_ok f v then Ok tt else VFault
